@@ -88,9 +88,9 @@ def replay_state(sp, st, variant):
     sc = max(1.0, np.abs(ex).max())
     if alg.x is not x_passed:
         out.append(("not_in_place", "alg.x is no longer the array the caller passed"))
-    if not np.allclose(alg.x, ex, atol=tol * sc, rtol=0):
+    if not core.allclose(alg.x, ex, atol=tol * sc, rtol=0):
         out.append(("iterate", "after %d updates x = %s, Krylov-optimal / model iterate %s" % (st["iter"], alg.x, ex)))
-    if not np.allclose(alg.r, er, atol=tol * max(1.0, np.abs(er).max()), rtol=0):
+    if not core.allclose(alg.r, er, atol=tol * max(1.0, np.abs(er).max()), rtol=0):
         out.append(("residual", "after %d updates tracked r = %s, model %s" % (st["iter"], alg.r, er)))
     rz = float(fr(st["rzold"]))
     if abs(alg.resid ** 2 - rz) > tol * max(1.0, abs(rz)):
